@@ -15,6 +15,8 @@ RULE = ('value-first random layouts x slice tuples of length 0-4 over {integer, 
         'list; distinct by case text')
 ASSUMPTIONS = ['multi-dimensional index arrays, index arrays with missing values and jagged index arrays are not yet specified',
                'toslice()/asslice() conversion of Python objects (src/python/content.cpp) cannot be built here',
+               'on record-containing types integers are not combined with index arrays (both are advanced indexes that merge into one '
+               'dimension; whether the records end up inside or outside the merged dimension is not specified)',
                'types containing unions are skipped; positional slicing below a record followed by further items is compared '
                'without a specification (verdict nomodel)']
 
@@ -37,7 +39,7 @@ def rand_items(rng, t, vals):
         r = rng.random()
         L = rng.choice([toplen, 0, 1, 2, 3, 4])
         dim_ok = ndim < mn
-        if r < 0.28 and dim_ok and not (has_arrays and arr_state == 2):
+        if r < 0.28 and dim_ok and not (has_arrays and arr_state == 2) and not (has_arrays and hasrec):
             items.append('(at %d)' % rng.randint(-L - 1, L))
             ndim += 1
             if has_arrays:
@@ -76,7 +78,7 @@ def rand_items(rng, t, vals):
 
 
 def cases(rng, tier):
-    n = 1500 if tier == 'quick' else 40000
+    n = 15000 if tier == 'quick' else 400000
     out = []
     for i in range(n):
         a = G.gen_array(rng, depth=rng.choice([1, 2, 3, 3, 4]), canonical_too=False,
